@@ -19,6 +19,23 @@ func c20w(cat, form, ctx string) json.RawMessage {
 	return rawJSON(&C20Case{Cat: cat, Form: form, Ctx: ctx, Import: "plain"})
 }
 
+// specD27: two injectors; the second has a parameter named like the provider
+// function both build lists spell.
+func specD27() *Spec {
+	s := &Spec{ImportAlias: map[int]string{}, Pkgs: []Pkg{{Name: "app"}}}
+	bar := Named(addFreshStruct(s, 0, "Bar"))
+	foo := Named(addFreshStruct(s, 0, "Foo"))
+	other := Named(addFreshStruct(s, 0, "Other"))
+	nb := addItem(s, Item{Kind: "func", Name: "NewBar", Out: Ptr(bar)})
+	nf := addItem(s, Item{Kind: "func", Name: "NewFoo", Out: foo, Params: []*Type{Ptr(bar)}})
+	s.Injectors = []Injector{
+		{Name: "InitA", Out: foo, Args: []Ref{RItem(nf), RItem(nb)}},
+		{Name: "InitB", Out: foo, Args: []Ref{RItem(nf), RItem(nb)}, Params: []Param{{Name: "NewBar", T: other}}},
+	}
+	refreshPlan(s)
+	return s
+}
+
 // specD1: the package declares err; an error-returning provider chain.
 func specD1() *Spec {
 	s := &Spec{ImportAlias: map[int]string{}, Pkgs: []Pkg{{Name: "app"}}}
@@ -144,6 +161,7 @@ func WriteFindings(commits map[string]string) error {
 		fixed("D25", "C20", "D25", "wire.Build(xconf.Dup{}) / wire.Struct(new(xconf.Dup), \"*\") for a struct of a third-party module with two fields of one type: the only diagnostic was positioned at the field inside the dependency", "C20 failure without a positioned diagnostic", c20w("item", "xconf.Dup{}", "build")),
 		fixed("D26", "C20", "D26", "wire.InterfaceValue(new(I), func() I { _ = 1; return C{} }()) as the source of the injector's result: nil pointer dereference in the accessibility check (the blank identifier has no object)", "C20 wire crashed",
 			rawJSON(&C20Case{Cat: "ivalue-needed", Form: "new(I), func() I { _ = 1; return C{} }()", Ctx: "needed", Import: "plain"})),
+		fixed("D27", "C06", "D27", "func InitB(NewBar Other) Foo { wire.Build(NewFoo, NewBar) } after an injector that uses the function NewBar: the parameter was mistaken for the package-level function (object cache keyed by name) and the missing *Bar silently filled by a provider the build list does not name", "C06 program the documented rules reject was accepted", rawJSON(specD27())),
 		known("D15", "C20", "injector body with extra statements: the invalid-injector diagnostic of `wire gen` carries no file:line:col position (its text is pinned by golden file InvalidInjector of the repository's suite, so a repair would change an expected output)", "C20 failure without a positioned diagnostic",
 			rawJSON(&C20Case{Cat: "injector", Form: "func Inject() S { y := 1; _ = y; wire.Build(NewS); return S{} }", Import: "plain"})),
 		known("D20", "C13", "wire.InterfaceValue(new(I), f()) is accepted and the call is copied into the generated package-level variable (the repository's golden test InterfaceValue uses strings.NewReader(...) and pins acceptance)", "C13",
